@@ -263,7 +263,7 @@ def run_parent(args):
                        "--tier", tier, "--seed", str(args.seed), "--shard", str(i), "--nshards", str(nshards),
                        "--out", out]
                 errf = open(os.path.join(workdir, f"shard{i}.err"), "wb")
-                p = subprocess.Popen(cmd, cwd=env.HV_ROOT, stdout=errf, stderr=errf, env=_child_env(mod))
+                p = subprocess.Popen(cmd, cwd=env.HV_ROOT, stdout=errf, stderr=errf, env=_child_env(mod, i))
                 running.append((i, p, out, time.time(), errf))
             still = []
             for (i, p, out, started, errf) in running:
@@ -315,12 +315,15 @@ def _workroot():
     return d
 
 
-def _child_env(mod):
+def _child_env(mod, shard=0):
     e = dict(os.environ)
     e["HV_ROOT"] = env.HV_ROOT
     e["HV_REPO"] = env.HV_REPO
     e["PYTHONDONTWRITEBYTECODE"] = "1"
-    e["PYTHONHASHSEED"] = "0"
+    # string hashing (and with it the iteration order of sets / the collision pattern of dicts in the code under test) is part
+    # of the environment: fixed per shard so that a run is reproducible, different between shards so that not only one order is
+    # ever seen
+    e["PYTHONHASHSEED"] = str(shard)
     e.update(getattr(mod, "CHILD_ENV", {}))
     return e
 
